@@ -15,7 +15,7 @@ wait_for_result).
 Scripts that do not finish (10 s / 1 GiB watchdog in a sub-process, confirmed by a second run) are
 Terminates violations.
 """
-import bisect, json, os, re
+import bisect, itertools, json, os, re
 from concurrent.futures import ThreadPoolExecutor
 import vlib
 
@@ -76,10 +76,10 @@ def payload_lib(c):
     return lib
 
 
-def generate(c, label, n, shapes, confs, bigmax, lib, simulate=None, fills=(1,)):
-    r = c.tlc("Batcher", "BatcherGen", workers=1, timeout=900, count=False, label=label, heap="8g",
+def generate(c, label, n, shapes, confs, bigmax, lib, simulate=None, fills=(1,), seed=None):
+    r = c.tlc("Batcher", "BatcherGen", workers=1, timeout=900, count=False, label=label, heap="4g",
               files={"BatcherGenParams.tla": gen_params(n, shapes, confs, bigmax, fills)},
-              simulate=simulate, depth=n + 2 if simulate else None, seed=c.seed if simulate else None)
+              simulate=simulate, depth=n + 2 if simulate else None, seed=seed if simulate else None)
     if r.error or r.timed_out:
         raise vlib.Inconclusive("generator %s failed: %s %s" % (label, r.error, r.out[-1500:]))
     if not simulate:
@@ -92,6 +92,8 @@ def generate(c, label, n, shapes, confs, bigmax, lib, simulate=None, fills=(1,))
             exp += per ** n
         if len(r.printed) != exp:
             raise vlib.Inconclusive("generator %s printed %d behaviours, expected %d" % (label, len(r.printed), exp))
+    elif not r.printed:
+        raise vlib.Inconclusive("generator %s printed no behaviour" % label)
     return r.printed
 
 
@@ -252,7 +254,7 @@ def run_and_validate(c, binp, scripts, label):
         if r.get("error"):
             raise vlib.Inconclusive("driver could not run script %d: %s" % (r["sid"], r["error"]))
     t = c.tlc("Batcher", "BatcherTrace", workers=1, files={"observed.ndjson": tr}, timeout=1500, count=False,
-              label="trace_" + label, heap="8g", tag="VIOL")
+              label="trace_" + label, heap="6g", tag="VIOL")
     done = vlib.extract_printed(t.out, "DONE")
     nlines = sum(1 for _ in open(tr))
     if t.error or t.timed_out or not done or done[0]["lines"] != nlines:
@@ -384,8 +386,9 @@ def run(c):
         jobs += [("gen_items", 2, STD, items_confs, 0, None, (1,)),
                  ("gen_bytes", 2, [1, 2, 5, 6, 9], bytes_confs, 1, None, (1,)),
                  ("gen_fill_items", 2, [6, 9, 12], [("items", 2), ("items", 5)], 0, None, (1, 3, 4, 7)),
-                 ("gen_fill_bytes", 2, [9, 10, 12], [("bytes", 5), ("bytes", 1), ("bytes", 6)], 0, None, all_fills),
+                 ("gen_fill_bytes", 2, [9, 10, 12], [("bytes", 5), ("bytes", 1), ("bytes", 6)], 0, None, (1, 2, 4, 5, 6, 7)),
                  ("gen_sim", 4, all_shapes, sim_confs, 2, "num=150", all_fills)]
+        cap = 2500
     else:
         jobs += [("gen_items2", 2, STD, items_confs + [("items", 4), ("items", 7)], 0, None, (1,)),
                  ("gen_items3", 3, [2, 3, 5, 6, 9], items_confs, 0, None, (1,)),
@@ -395,46 +398,55 @@ def run(c):
                  ("gen_fill_bytes2", 2, [6, 9, 10, 11, 12], [("bytes", k) for k in (5, 1, 6, 2, 3)], 0, None, all_fills),
                  ("gen_fill_bytes3", 3, [10, 12], [("bytes", 5), ("bytes", 1), ("bytes", 6)], 0, None, (1, 2, 4, 6))]
         jobs += [("gen_sim%d" % k, 6, all_shapes, sim_confs, 3, "num=500", all_fills) for k in range(3)]
+        cap = 12000
+    with ThreadPoolExecutor(max_workers=4) as ex:     # the generator runs are independent too
+        sims = [j for j in jobs if j[5]]
+        outs = list(ex.map(lambda j: generate(c, j[0], j[1], j[2], j[3], j[4], lib, simulate=j[5], fills=j[6],
+                                              seed=c.seed + (0 if q else 1000 * (1 + sims.index(j))) if j[5] else None), jobs))
     behs = []
-    for label, n, shapes, confs, bigmax, sim, fills in jobs:
-        if sim and not q:
-            c.seed += 1000
-        behs += generate(c, label, n, shapes, confs, bigmax, lib, simulate=sim, fills=fills)
-    if not q:
-        c.seed -= 3000
+    for j, out in zip(jobs, outs):
+        # the simulator evaluates Emit on every successor of the last step (|shapes| x |big| x |fills| per walk): sample
+        behs += c.rng.sample(out, cap) if j[5] and len(out) > cap else out
     c.exhaustive = True
     scripts = split_scripts(behs, lib, SIGNALS, 1)
+    nsplit = len(scripts)
     scripts += batch_scripts(c, behs, lib, 400 if q else 4000, len(scripts) + 1)
     c.log("generated %d behaviours -> %d scripts" % (len(behs), len(scripts)))
 
     # ------------------------------------------------------------------ 3. run + monitor
+    # pieces are run and validated side by side (one driver + one TLC each); the batcher scripts, whose time is mostly
+    # waiting for flush timers, go first; verdicts are reported in the order of the pieces
     nontrivial = drift = nviol = 0
-    chunk = 8000
     stopped = False
-    for off in range(0, len(scripts), chunk):
-        sub = scripts[off:off + chunk]
-        results, viol, ctxd, tr, hangs = run_and_validate(c, binp, sub, "c%d" % (off // chunk))
-        report(c, sub, results, viol, ctxd, tr)
-        nviol += len(viol)
-        c.traces_validated += sum(1 for r in results.values() if not r.get("skipped"))
-        for s in sub:
-            r = results.get(s["sid"])
-            if r is None or r.get("skipped"):
-                stopped = True
-                continue
-            if r["parts"] >= 2:
-                nontrivial += 1
-            if r.get("strict") and s["sid"] not in viol:
-                drift += 1
-                if drift <= 3:
-                    c.model_drift("script %d (%s, items sizer, max %d): %s" % (s["sid"], s["signal"], s["max"], r["strict"][:400]))
-        if off == 0:
-            c.sample(dict(kind="script with its recorded trace (first lines)", script=sub[len(sub) // 3],
-                          trace=open(tr).read().splitlines()[:8]))
-        if stopped:
-            c.log("%d scripts did not terminate; further scripts of their classes (kind, signal, sizer) were skipped" % hangs)
-            if not c.violations:
-                raise vlib.Inconclusive("scripts were skipped without a reported violation")
+    bsz, ssz = (100, 2500) if q else (500, 5000)
+    pieces = [scripts[o:o + bsz] for o in range(nsplit, len(scripts), bsz)] + [scripts[o:min(o + ssz, nsplit)] for o in range(0, nsplit, ssz)]
+    ex = ThreadPoolExecutor(max_workers=max(2, min(5, vlib.NCPU // 3)))
+    try:
+        for off, (sub, out) in enumerate(zip(pieces, ex.map(lambda i: run_and_validate(c, binp, pieces[i], "c%d" % i), range(len(pieces))))):
+            results, viol, ctxd, tr, hangs = out
+            report(c, sub, results, viol, ctxd, tr)
+            nviol += len(viol)
+            c.traces_validated += sum(1 for r in results.values() if not r.get("skipped"))
+            for s in sub:
+                r = results.get(s["sid"])
+                if r is None or r.get("skipped"):
+                    stopped = True
+                    continue
+                if r["parts"] >= 2:
+                    nontrivial += 1
+                if r.get("strict") and s["sid"] not in viol:
+                    drift += 1
+                    if drift <= 3:
+                        c.model_drift("script %d (%s, items sizer, max %d): %s" % (s["sid"], s["signal"], s["max"], r["strict"][:400]))
+            if off == len(pieces) - 1:
+                c.sample(dict(kind="script with its recorded trace (first lines)", script=sub[0],
+                              trace=[x.rstrip("\n") for x in itertools.islice(open(tr), 8)]))
+            if stopped:
+                c.log("%d scripts did not terminate; further scripts of their classes (kind, signal, sizer) were skipped" % hangs)
+                if not c.violations:
+                    raise vlib.Inconclusive("scripts were skipped without a reported violation")
+    finally:
+        ex.shutdown(wait=False, cancel_futures=True)
     if drift > 3:
         c.model_drift("%d split scripts in total returned parts other than the specified consecutive chunks (monitor satisfied)" % drift)
     c.extra["scripts"] = dict(total=len(scripts), rejected_by_monitor=nviol)
